@@ -284,6 +284,8 @@ pub struct SinkState {
 	plan: AcceptPlan,
 	plan_idx: usize,
 	faults: Vec<SinkFault>,
+	/// every call whose index is `phase` modulo `period` reports `Interrupted` (period >= 2: the retry goes through)
+	interrupt_every: Option<(u64, u64)>,
 	/// implements `write_vectored` itself (accepting across slice boundaries); otherwise only the
 	/// first non-empty slice is written, like the default method does
 	vectored: bool,
@@ -307,6 +309,7 @@ impl SimSink {
 			plan,
 			plan_idx: 0,
 			faults: vec![],
+			interrupt_every: None,
 			vectored,
 			stay_broken: false,
 			broken: false,
@@ -319,6 +322,11 @@ impl SimSink {
 	}
 	pub fn all() -> Self {
 		Self::new(AcceptPlan::All, true)
+	}
+	pub fn with_interrupt_every(self, period: u64, phase: u64) -> Self {
+		assert!(period >= 2, "HARNESS: a sink that interrupts every call never makes progress");
+		self.0.borrow_mut().interrupt_every = Some((period, phase % period));
+		self
 	}
 	pub fn with_faults(self, faults: Vec<SinkFault>) -> Self {
 		self.0.borrow_mut().faults = faults;
@@ -400,6 +408,14 @@ impl SinkState {
 		if self.broken {
 			record(self, SinkCallResult::Hard);
 			return Err(IoErrKind::BrokenPipe.to_error());
+		}
+		if let Some((period, phase)) = self.interrupt_every {
+			if call % period == phase {
+				self.digest.bytes(&[0xED]);
+				self.stats.interrupted_fired += 1;
+				record(self, SinkCallResult::Interrupted);
+				return Err(IoErrKind::Interrupted.to_error());
+			}
 		}
 		if let Some(f) = self.faults.iter().find(|f| f.at_call == call).copied() {
 			self.digest.bytes(&[0xEE]);
